@@ -828,7 +828,11 @@ class System:
             # initialize variables second
             mdl.init(routine=routine)
 
-            self.vars_to_dae(mdl)
+            # A model that is not initialized for this routine already has its values in the DAE arrays.
+            # Collecting them again would add the values of its non-inplace (collated) variables twice.
+            flag = getattr(mdl.flags, routine + '_init', None)
+            if getattr(mdl.flags, routine) if flag is None else flag:
+                self.vars_to_dae(mdl)
             self.vars_to_models()
 
         self.s_update_post(models)
